@@ -215,8 +215,70 @@ fn c15_family(rt: &tokio::runtime::Runtime, irrd_port: u16, opts: &Opts, sink: &
     }
 }
 
+/// C01 end to end at scale: n managed policies, none installed yet, one run. Every one of them must be
+/// loaded exactly once before the commit (a sending window, a batch size, a counter … must not lose one).
+fn many_family(rt: &tokio::runtime::Runtime, irrd_port: u16, opts: &Opts, sink: &mut Sink) {
+    let ns: &[usize] = if opts.thorough() { &[127, 128, 129, 256, 257, 300, 1000] } else { &[127, 128, 129, 257, 300] };
+    for &n in ns {
+        let log = Arc::new(Mutex::new(Log::default()));
+        let script = Script { running: fakejunos::running_with(n), ephemeral: fakejunos::empty_config(), fault: None };
+        let log2 = log.clone();
+        let connector = agent::verif::connector(move || {
+            let script = script.clone();
+            let log = log2.clone();
+            Box::pin(async move {
+                let (t, peer) = mt::new();
+                tokio::spawn(fakejunos::serve(peer, script, log));
+                Ok(t)
+            })
+        });
+        let res = std::panic::catch_unwind(std::panic::AssertUnwindSafe(|| {
+            rt.block_on(async {
+                tokio::time::timeout(Duration::from_secs(60), agent::verif::run_once(connector, "127.0.0.1", irrd_port, "bgpfu")).await
+            })
+        }));
+        std::thread::sleep(Duration::from_millis(5));
+        let g = log.lock().unwrap();
+        let mut loaded: Vec<String> = g
+            .loads
+            .iter()
+            .filter_map(|l| {
+                let a = l.find("<name>")? + 6;
+                let b = l[a..].find("</name>")? + a;
+                Some(l[a..b].to_string())
+            })
+            .collect();
+        loaded.sort();
+        let mut want: Vec<String> = (0..n).map(|i| format!("p{i}")).collect();
+        want.sort();
+        let committed = g.names.iter().any(|x| x == "commit-configuration");
+        let case = format!("many;{n}");
+        let verdict = match res {
+            Err(_) => "violation run-panics".to_string(),
+            Ok(Err(_)) => "violation run-hangs".to_string(),
+            Ok(Ok(Err(_))) => "violation run-fails-without-fault".to_string(),
+            Ok(Ok(Ok(()))) if !committed => "violation not-committed".to_string(),
+            Ok(Ok(Ok(()))) if loaded != want => {
+                let missing = want.iter().filter(|w| !loaded.contains(w)).count();
+                let dup = loaded.len() + missing - want.len();
+                format!("violation success-but-{missing}-policies-never-loaded-{dup}-loaded-twice")
+            }
+            Ok(Ok(Ok(()))) => "ok".to_string(),
+        };
+        sink.direct(&case, verdict);
+        sink.count("many.runs");
+    }
+}
+
 pub fn main(opts: &Opts) {
     let mut sink = Sink::new();
+    if opts.extra.iter().any(|e| e == "many") {
+        let irrd = FakeIrrd::start(HashMap::new());
+        let rt = tokio::runtime::Builder::new_multi_thread().worker_threads(4).enable_all().build().unwrap();
+        many_family(&rt, irrd.port, opts, &mut sink);
+        sink.write(opts, "agentrun");
+        return;
+    }
     if opts.extra.iter().any(|e| e == "c15") {
         let irrd = FakeIrrd::start(HashMap::new());
         let rt = tokio::runtime::Builder::new_multi_thread()
@@ -256,6 +318,16 @@ pub fn main(opts: &Opts) {
         } else {
             vec![0, 1, 2, 5]
         };
+        // more loads than any plausible window / batch size: faults at the first loads, around position
+        // 128 of the load phase, at the last load and at the commit
+        for &n in &[130usize, 260] {
+            cases.push((n, None));
+            for pos in [1usize, 3, 4, 5, 4 + 126, 4 + 127, 4 + 128, 3 + n, 4 + n, 6 + n] {
+                for f in [Fault::RpcError, Fault::ErrWarnOk, Fault::WarnOk, Fault::CloseBefore] {
+                    cases.push((n, Some((pos, f))));
+                }
+            }
+        }
         for &n in &ns {
             cases.push((n, None));
             // every fault position × kind (exhaustive)
